@@ -3,25 +3,24 @@ import Slock.Proofs.ConnBasic
 
 `Good` (holds while the server process is alive): shape of closed / open records, every proxy reference and every
 `clients` entry points to an OPEN connection that announced the id in question, will bookkeeping.
-`Safe` (holds always, also after the fatal `Close`): no will of an open connection — and no will of a text
-connection at all — has reached the engine. -/
+`Safe` (holds unconditionally): no will of an open connection has reached the engine. -/
 namespace Slock.Conn
 
 structure Good (s : Server) : Prop where
   closedShape : ∀ (c : Nat) (x : Conn), s.conns[c]? = some x → x.closed = true →
-    x.inited = false ∧ x.target ≠ .self ∧ (x.kind = .binary → x.wills = [])
+    x.inited = false ∧ x.target ≠ .self ∧ x.wills = []
   openShape : ∀ (c : Nat) (x : Conn), s.conns[c]? = some x → x.closed = false → x.target = .self
   adopted : ∀ (c : Nat) (x : Conn) (d : Nat), s.conns[c]? = some x → x.target = .conn d →
-    ∃ y : Conn, s.conns[d]? = some y ∧ y.closed = false ∧ x.cid ∈ y.announced
+    x.cid ≠ 0 ∧ ∃ y : Conn, s.conns[d]? = some y ∧ y.closed = false ∧ x.cid ∈ y.announced
   clientsOk : ∀ (k d : Nat), aget s.clients k = some d →
     ∃ y : Conn, s.conns[d]? = some y ∧ y.closed = false ∧ y.inited = true ∧ y.cid = k ∧ k ∈ y.announced ∧ y.kind = .binary
   willsOpen : ∀ (c : Nat) (x : Conn), s.conns[c]? = some x → x.closed = false → x.reg = x.wills.map (·.tok)
-  willsClosed : ∀ (c : Nat) (x : Conn), s.conns[c]? = some x → x.closed = true → x.kind = .binary → execOf s c = x.reg
+  willsClosed : ∀ (c : Nat) (x : Conn), s.conns[c]? = some x → x.closed = true → execOf s c = x.reg
+  announcedOwn : ∀ (c : Nat) (x : Conn), s.conns[c]? = some x → (x.cid ≠ 0 ∨ x.inited = true) → x.cid ∈ x.announced
 
 structure Safe (s : Server) : Prop where
   engRange : ∀ e ∈ s.engine, e.1 < s.conns.length
   execOpen : ∀ (c : Nat) (x : Conn), s.conns[c]? = some x → x.closed = false → execOf s c = []
-  execText : ∀ (c : Nat) (x : Conn), s.conns[c]? = some x → x.kind = .text → execOf s c = []
 
 theorem lt_of_get {l : List Conn} {c : Nat} {x : Conn} (h : l[c]? = some x) : c < l.length :=
   (List.getElem?_eq_some_iff.mp h).1
@@ -41,14 +40,15 @@ theorem get_set_cases {l : List Conn} {c : Nat} {x : Conn} (hx : l[c]? = some x)
 /-! ### master lemma: one record (and the maps) updated, engine untouched -/
 theorem good_update {s : Server} (hg : Good s) {c : Nat} {x : Conn} (hx : s.conns[c]? = some x) (x' : Conn)
     (cl' ow' : List (Nat × Nat))
-    (hA1 : x'.closed = true → x'.inited = false ∧ x'.target ≠ .self ∧ (x'.kind = .binary → x'.wills = []))
+    (hA1 : x'.closed = true → x'.inited = false ∧ x'.target ≠ .self ∧ x'.wills = [])
     (hA2 : x'.closed = false → x'.target = .self ∧ x'.reg = x'.wills.map (·.tok))
-    (hB : ∀ d, x'.target = .conn d → d ≠ c ∧ ∃ y : Conn, s.conns[d]? = some y ∧ y.closed = false ∧ x'.cid ∈ y.announced)
+    (hB : ∀ d, x'.target = .conn d → d ≠ c ∧ x'.cid ≠ 0 ∧ ∃ y : Conn, s.conns[d]? = some y ∧ y.closed = false ∧ x'.cid ∈ y.announced)
     (hC1 : x'.closed = x.closed) (hC2 : ∀ k ∈ x.announced, k ∈ x'.announced)
     (hD : ∀ k d, aget cl' k = some d →
       (d = c ∧ x'.closed = false ∧ x'.inited = true ∧ x'.cid = k ∧ k ∈ x'.announced ∧ x'.kind = .binary) ∨
       (d ≠ c ∧ aget s.clients k = some d))
-    (hE : x'.closed = true → x'.kind = .binary → execOf s c = x'.reg) :
+    (hE : x'.closed = true → execOf s c = x'.reg)
+    (hF : (x'.cid ≠ 0 ∨ x'.inited = true) → x'.cid ∈ x'.announced) :
     Good { s with conns := s.conns.set c x', clients := cl', owner := ow' } := by
   have lkc := get_set_self hx x'
   constructor
@@ -62,14 +62,14 @@ theorem good_update {s : Server} (hg : Good s) {c : Nat} {x : Conn} (hx : s.conn
     · exact hg.openShape j y h hop
   · intro j y d hj ht
     rcases get_set_cases hx x' j y hj with ⟨_, rfl⟩ | ⟨_, h⟩
-    · obtain ⟨hd, z, hz, hzo, hza⟩ := hB d ht
-      exact ⟨z, by show (s.conns.set c y)[d]? = some z; rw [get_set_ne hd]; exact hz, hzo, hza⟩
-    · obtain ⟨z, hz, hzo, hza⟩ := hg.adopted j y d h ht
+    · obtain ⟨hd, hnz, z, hz, hzo, hza⟩ := hB d ht
+      exact ⟨hnz, z, by show (s.conns.set c y)[d]? = some z; rw [get_set_ne hd]; exact hz, hzo, hza⟩
+    · obtain ⟨hnz, z, hz, hzo, hza⟩ := hg.adopted j y d h ht
       by_cases hd : d = c
       · subst hd
         rw [hx] at hz; cases hz
-        exact ⟨x', lkc, by rw [hC1]; exact hzo, hC2 _ hza⟩
-      · exact ⟨z, by show (s.conns.set c x')[d]? = some z; rw [get_set_ne hd]; exact hz, hzo, hza⟩
+        exact ⟨hnz, x', lkc, by rw [hC1]; exact hzo, hC2 _ hza⟩
+      · exact ⟨hnz, z, by show (s.conns.set c x')[d]? = some z; rw [get_set_ne hd]; exact hz, hzo, hza⟩
   · intro k d hk
     rcases hD k d hk with ⟨rfl, h⟩ | ⟨hd, h⟩
     · exact ⟨x', lkc, h⟩
@@ -79,10 +79,14 @@ theorem good_update {s : Server} (hg : Good s) {c : Nat} {x : Conn} (hx : s.conn
     rcases get_set_cases hx x' j y hj with ⟨_, rfl⟩ | ⟨_, h⟩
     · exact (hA2 hop).2
     · exact hg.willsOpen j y h hop
-  · intro j y hj hcl hk
+  · intro j y hj hcl
     rcases get_set_cases hx x' j y hj with ⟨rfl, rfl⟩ | ⟨_, h⟩
-    · exact hE hcl hk
-    · exact hg.willsClosed j y h hcl hk
+    · exact hE hcl
+    · exact hg.willsClosed j y h hcl
+  · intro j y hj hh
+    rcases get_set_cases hx x' j y hj with ⟨_, rfl⟩ | ⟨_, h⟩
+    · exact hF hh
+    · exact hg.announcedOwn j y h hh
 
 /-- a record changed in fields no invariant reads (`awaiting`, `halfClosed`), or an open record's wills extended -/
 theorem good_update_minor {s : Server} (hg : Good s) {c : Nat} {x : Conn} (hx : s.conns[c]? = some x) (x' : Conn)
@@ -92,18 +96,18 @@ theorem good_update_minor {s : Server} (hg : Good s) {c : Nat} {x : Conn} (hx : 
     (h7 : x.closed = true → x'.wills = x.wills ∧ x'.reg = x.reg)
     (h8 : x.closed = false → x'.reg = x'.wills.map (·.tok)) :
     Good { s with conns := s.conns.set c x', owner := ow' } := by
-  refine good_update hg hx x' s.clients ow' ?_ ?_ ?_ h1 ?_ ?_ ?_
+  refine good_update hg hx x' s.clients ow' ?_ ?_ ?_ h1 ?_ ?_ ?_ ?_
   · intro hcl
     rw [h1] at hcl
     obtain ⟨a, b, d⟩ := hg.closedShape c x hx hcl
-    exact ⟨by rw [h2]; exact a, by rw [h4]; exact b, fun hk => by rw [(h7 hcl).1]; exact d (h5 ▸ hk)⟩
+    exact ⟨by rw [h2]; exact a, by rw [h4]; exact b, by rw [(h7 hcl).1]; exact d⟩
   · intro hop
     rw [h1] at hop
     exact ⟨by rw [h4]; exact hg.openShape c x hx hop, h8 hop⟩
   · intro d ht
     rw [h4] at ht
-    obtain ⟨y, hy, hyo, hya⟩ := hg.adopted c x d hx ht
-    refine ⟨?_, y, hy, hyo, by rw [h3]; exact hya⟩
+    obtain ⟨hnz, y, hy, hyo, hya⟩ := hg.adopted c x d hx ht
+    refine ⟨?_, by rw [h3]; exact hnz, y, hy, hyo, by rw [h3]; exact hya⟩
     intro e; subst e
     rw [hx] at hy; cases hy
     have := hg.openShape d x hx hyo
@@ -116,13 +120,17 @@ theorem good_update_minor {s : Server} (hg : Good s) {c : Nat} {x : Conn} (hx : 
       rw [hx] at hy; cases hy
       exact .inl ⟨rfl, by rw [h1]; exact a, by rw [h2]; exact b, by rw [h3]; exact e, by rw [h6]; exact f, by rw [h5]; exact g⟩
     · exact .inr ⟨hd, hk⟩
-  · intro hcl hk
+  · intro hcl
     rw [h1] at hcl
     rw [(h7 hcl).2]
-    exact hg.willsClosed c x hx hcl (h5 ▸ hk)
+    exact hg.willsClosed c x hx hcl
+  · intro hh
+    rw [h3, h6]
+    rw [h3, h2] at hh
+    exact hg.announcedOwn c x hx hh
 
 theorem good_owner {s : Server} (hg : Good s) (ow' : List (Nat × Nat)) : Good { s with owner := ow' } :=
-  ⟨hg.closedShape, hg.openShape, hg.adopted, hg.clientsOk, hg.willsOpen, hg.willsClosed⟩
+  ⟨hg.closedShape, hg.openShape, hg.adopted, hg.clientsOk, hg.willsOpen, hg.willsClosed, hg.announcedOwn⟩
 
 /-! ### open -/
 theorem get_append_cases (l : List Conn) (n : Conn) (j : Nat) (y : Conn) (h : (l ++ [n])[j]? = some y) :
@@ -154,8 +162,8 @@ theorem good_open {s : Server} (hg : Good s) (hs : Safe s) (k : Kind) :
     · rfl
   · intro j y d hj ht
     rcases get_append_cases _ _ j y hj with h | ⟨_, rfl⟩
-    · obtain ⟨z, hz, r⟩ := hg.adopted j y d h ht
-      exact ⟨z, get_append_old _ _ d z hz, r⟩
+    · obtain ⟨hnz, z, hz, r⟩ := hg.adopted j y d h ht
+      exact ⟨hnz, z, get_append_old _ _ d z hz, r⟩
     · cases ht
   · intro kk d hk
     obtain ⟨z, hz, r⟩ := hg.clientsOk kk d hk
@@ -164,10 +172,16 @@ theorem good_open {s : Server} (hg : Good s) (hs : Safe s) (k : Kind) :
     rcases get_append_cases _ _ j y hj with h | ⟨_, rfl⟩
     · exact hg.willsOpen j y h hop
     · rfl
-  · intro j y hj hcl hk
+  · intro j y hj hcl
     rcases get_append_cases _ _ j y hj with h | ⟨_, rfl⟩
-    · exact hg.willsClosed j y h hcl hk
+    · exact hg.willsClosed j y h hcl
     · cases hcl
+  · intro j y hj hh
+    rcases get_append_cases _ _ j y hj with h | ⟨_, rfl⟩
+    · exact hg.announcedOwn j y h hh
+    · rcases hh with hh | hh
+      · exact absurd rfl hh
+      · cases hh
 
 theorem safe_open {s : Server} (hs : Safe s) (k : Kind) : Safe { s with conns := s.conns ++ [{ kind := k }] } := by
   have fresh : execOf s s.conns.length = [] :=
@@ -180,10 +194,6 @@ theorem safe_open {s : Server} (hs : Safe s) (k : Kind) : Safe { s with conns :=
     rcases get_append_cases _ _ j y hj with h | ⟨rfl, _⟩
     · exact hs.execOpen j y h hop
     · exact fresh
-  · intro j y hj hk
-    rcases get_append_cases _ _ j y hj with h | ⟨rfl, _⟩
-    · exact hs.execText j y h hk
-    · exact fresh
 
 /-- engine untouched, records keep kind and do not re-open -/
 theorem safe_same_engine {s s' : Server} (hs : Safe s) (he : s'.engine = s.engine) (hl : s'.conns.length = s.conns.length)
@@ -195,10 +205,6 @@ theorem safe_same_engine {s s' : Server} (hs : Safe s) (he : s'.engine = s.engin
     obtain ⟨y, hy, h1, _⟩ := hr j y' hj
     show execL s'.engine j = []
     rw [he]; exact hs.execOpen j y hy (h1 hop)
-  · intro j y' hj hk
-    obtain ⟨y, hy, _, h2⟩ := hr j y' hj
-    show execL s'.engine j = []
-    rw [he]; exact hs.execText j y hy (h2 ▸ hk)
 
 theorem safe_set {s : Server} (hs : Safe s) {c : Nat} {x : Conn} (hx : s.conns[c]? = some x) (x' : Conn)
     (cl' ow' : List (Nat × Nat)) (h1 : x'.closed = false → x.closed = false) (h2 : x'.kind = x.kind) :
